@@ -87,13 +87,17 @@ func scenC02(r *Run, job *Job) {
 			extras[i].post = append([]Op{{Kind: kind, Arg: "last", Body: []byte(fmt.Sprintf("DUP-%d", i+1))}}, extras[i].post...)
 		}
 	}
-	// concurrent duplicates: the legitimate answer of an "ok" invocation is submitted twice at the same moment, on two
-	// connections (as /response + /response or /response + /error with the same body)
+	// concurrent duplicates: the legitimate answer of an "ok" invocation is submitted twice, on two connections (as
+	// /response + /response or /error + /response with the same body); the handler of the first is descheduled at a
+	// lock site while the second is handled
 	races := make([]string, nInv)
+	raceSites := make([]string, nInv)
 	if profile == "adversary" {
 		for i := range races {
 			if modes[i] == "ok" && t.Chance(1, 4) {
 				races[i] = []string{"response", "error"}[t.Draw(2)]
+				// where the duplicate's handler is descheduled ("" = nowhere: it is answered before the real one starts)
+				raceSites[i] = []string{"", "GetCurrentInvokeID", "registrationServiceImpl).GetRuntime", "core.(*Runtime).", "SetState", "GetState", "Server).SendResponse", "Server).SendErrorResponse", "ResponseSent", "setRuntimeState"}[t.Draw(10)]
 			}
 		}
 	}
@@ -105,7 +109,7 @@ func scenC02(r *Run, job *Job) {
 			switch modes[inv.N-1] {
 			case "ok":
 				if races[inv.N-1] != "" {
-					return &InvBehav{Body: []byte(fmt.Sprintf("resp-%d:", inv.N) + string(inv.Payload)), Race: races[inv.N-1]}
+					return &InvBehav{Body: []byte(fmt.Sprintf("resp-%d:", inv.N) + string(inv.Payload)), Race: races[inv.N-1], RaceSite: raceSites[inv.N-1]}
 				}
 			case "error":
 				return &InvBehav{Mode: "error", ErrType: "Function.Sim", Body: []byte(fmt.Sprintf("ERR-%d", inv.N))}
